@@ -364,4 +364,21 @@ theorem tie_skel_bufferManager_readBufferSlice_c01 : Gen.Skel.bufferManager_read
   "return newBufferSlice(b.mem[offset:offset+bufferHeaderSize], b.mem[offset+bufferHeaderSize:bufEndOffset], offset, true), nil",
   "}"] := by rfl
 
+/-! giving a buffer back is serialised per buffer (recycleMux covers the parked list too): no slot is pushed twice -/
+theorem tie_skel_c01_linkedBuffer_recycle : Gen.Skel.linkedBuffer_recycle = [
+  "func (l *linkedBuffer) recycle() {",
+  "l.recycleMux.Lock()",
+  "l.cleanPinnedList()",
+  "for l.sliceList.size() > 0 {",
+  "slice := l.sliceList.popFront()",
+  "if slice.isFromShm {",
+  "l.bufferManager.recycleBuffer(slice)",
+  "} else {",
+  "putBackBufferSlice(slice)",
+  "}",
+  "}",
+  "l.clean()",
+  "l.recycleMux.Unlock()",
+  "}"] := by rfl
+
 end Tie.C01
